@@ -10,6 +10,7 @@ from __future__ import annotations
 
 import re
 import warnings
+import pathlib
 from typing import Any, Iterator, List, Optional, Sequence, Set, Tuple
 
 from verif import gen_re
@@ -53,8 +54,8 @@ META = {
         "pattern"
     ),
     "bounds": {
-        "quick": "full grammar K=3, basic grammar K=4, probe length P=3 (every probe)",
-        "thorough": "full grammar K=4, basic grammar K=5, probe length P=4 (every probe)",
+        "quick": "full grammar K=3, basic grammar K=4, probe length P=3 (every probe); compiled C++ matcher (pattern.cpp + revm.cpp of the cpp target): every third pattern of the K<=2 grammar x all probes of length <= 4 over {a,b,c,.}",
+        "thorough": "full grammar K=4, basic grammar K=5, probe length P=4 (every probe); compiled C++ matcher: all patterns of the K<=3 grammar x all probes of length <= 4",
     },
     "assumptions": [
         "Python's re.fullmatch is the reference semantics of the pattern",
@@ -83,8 +84,17 @@ def probe_alphabet(pattern: str) -> Tuple[str, ...]:
     return tuple(chars)
 
 
+CPP_PARTS = {"quick": 1, "thorough": 12}
+CPP_K = {"quick": 2, "thorough": 3}
+CPP_BATCH = 160
+
+
 def shards(tier: str) -> List[Any]:
-    return [(tier, index) for index in range(N_SHARDS)]
+    result = [(tier, index) for index in range(N_SHARDS)]  # type: List[Any]
+    # the emitted C++ (pattern.cpp + revm.cpp of the cpp target), compiled and run
+    for part in range(CPP_PARTS[tier]):
+        result.append((tier, "cpp", part, CPP_PARTS[tier]))
+    return result
 
 
 def _bucket(text: str) -> int:
@@ -342,10 +352,135 @@ def worker_init() -> None:
     from aas_core_codegen.intermediate import revm  # noqa: F401
 
 
+CPP_DRIVER = """
+#include "dummy/pattern.hpp"
+#include "dummy/revm.hpp"
+#include <cstdio>
+#include <iostream>
+#include <string>
+int main() {
+  const std::vector<std::unique_ptr<dummy::revm::Instruction> >* programs[] = {
+PROGRAMS
+  };
+  std::string line;
+  while (std::getline(std::cin, line)) {
+    std::wstring text(line.begin(), line.end());
+    for (auto* program : programs) std::putchar(dummy::revm::Match(*program, text) ? '1' : '0');
+    std::putchar('\\n');
+  }
+  return 0;
+}
+"""
+
+
+def cpp_patterns(tier: str) -> List[str]:
+    grammar = gen_re.Grammar(gen_re.LEAVES_BASIC + ["\\x61", "\\."], gen_re.QUANTIFIERS_BASIC + ["{2,}", "{0,2}"])
+    result = []  # type: List[str]
+    for body in grammar.patterns_up_to(CPP_K[tier]):
+        if not body:
+            continue
+        result.append(f"^{body}$" if "|" not in body else f"^({body})$")
+        result.append(f"^{body}.*$" if "|" not in body else f"^({body}).*$")
+    return result
+
+
+def explore_cpp_batch(patterns: List[str], result: Result, base: Any) -> None:
+    """Generate the cpp target for a model with these pattern functions, compile, run."""
+    import re
+    import shutil
+
+    from verif import exttools, sdk
+
+    gxx = exttools.gxx()
+    tl = exttools.cpp_shim_include()
+    if gxx is None or tl is None or not (pathlib.Path(tl) / "tl" / "expected.hpp").exists():
+        if "g++/tl-expected" not in result.skipped_tools:
+            result.skipped_tools.append("g++/tl-expected")
+        return
+    text = "".join(
+        f"@verification\ndef matches_{index}(text: str) -> bool:\n"
+        f'    """Check that :paramref:`text` matches."""\n'
+        f"    pattern = {pattern!r}\n    return match(pattern, text) is not None\n\n\n"
+        for index, pattern in enumerate(patterns)
+    ) + (
+        'class Something(DBC):\n    """Represent something."""\n\n    text: str\n\n'
+        "    def __init__(self, text: str) -> None:\n        self.text = text\n\n\n"
+        '__version__ = "dummy"\n__xml_namespace__ = "https://dummy.com"\n'
+    )
+    shutil.rmtree(base, ignore_errors=True)
+    try:
+        rc, _, stderr, out = sdk.generate(text, "cpp", base, "Something")
+    except Exception:
+        rc, out = 1, None
+    if rc != 0:
+        if len(patterns) == 1:
+            result.extra["cpp_patterns_not_generated"] = result.extra.get("cpp_patterns_not_generated", 0) + 1
+            return
+        middle = len(patterns) // 2
+        explore_cpp_batch(patterns[:middle], result, base)
+        explore_cpp_batch(patterns[middle:], result, base)
+        return
+    assert out is not None
+    shim = base / "shim"
+    shim.mkdir()
+    (shim / "tl").symlink_to(pathlib.Path(tl) / "tl")
+    programs = "\n".join(f"    &dummy::pattern::kMatches{index}Program," for index in range(len(patterns)))
+    (out / "driver.cpp").write_text(CPP_DRIVER.replace("PROGRAMS", programs), encoding="utf-8")
+    rc, _, stderr = exttools.run(
+        [gxx, "-std=c++17", "-O0", "-w", "-I", str(out / "include"), "-I", str(shim),
+         str(out / "src" / "pattern.cpp"), str(out / "src" / "revm.cpp"), str(out / "src" / "common.cpp"),
+         str(out / "driver.cpp"), "-o", str(out / "driver")],
+        timeout=2400,
+    )
+    if rc != 0:
+        result.add_violation("cpp-matcher-does-not-compile", stderr[-300:], {"pattern": patterns[0], "cpp": True})
+        return
+    probes = [probe for probe in gen_re.probes(("a", "b", "c", "."), 4)]
+    rc, stdout, stderr = exttools.run([str(out / "driver")], stdin="\n".join(probes) + "\n", timeout=600)
+    lines = stdout.splitlines()
+    if rc != 0 or len(lines) != len(probes):
+        result.extra.setdefault("harness_errors", []).append(f"cpp matcher driver rc={rc} lines={len(lines)} {stderr[-120:]}")
+        return
+    compiled = [re.compile(pattern) for pattern in patterns]
+    for index, pattern in enumerate(patterns):
+        result.states += 1
+        result.evaluations += 1
+        matched_any = False
+        for probe, line in zip(probes, lines):
+            result.transitions += 1
+            expected = compiled[index].fullmatch(probe) is not None
+            matched_any = matched_any or expected
+            if (line[index] == "1") != expected:
+                result.add_violation(
+                    "cpp-matcher-differs",
+                    f"{pattern!r} on {probe!r}: re.fullmatch={expected}, compiled C++ VM={line[index] == '1'}",
+                    {"pattern": pattern, "cpp": True, "probe": probe},
+                )
+                break
+        else:
+            result.outcomes.add("cpp-agrees")
+            if matched_any:
+                result.nontrivial += 1
+    shutil.rmtree(base, ignore_errors=True)
+
+
 def work(shard: Any) -> Result:
     tier = shard[0]
     probe_len = BOUNDS[tier]["probe_len"]
     result = Result()
+    if shard[1] == "cpp":
+        from verif.core import worker_tmp
+
+        _, _, part, parts = shard
+        mine = [p for number, p in enumerate(cpp_patterns(tier)) if number % parts == part]
+        # only patterns for which a VM program exists (the others are known findings of
+        # the emission clause); the quick tier takes every third of them
+        mine = [p for p in mine if check_pattern(p, 1)[1].startswith("agree")]
+        if tier == "quick":
+            mine = mine[::3]
+        for start in range(0, len(mine), CPP_BATCH):
+            explore_cpp_batch(mine[start : start + CPP_BATCH], result, worker_tmp() / f"c18-cpp-{part}")
+        return result
     for pattern in patterns_of_shard(shard):
         try:
             with time_limit(20):
@@ -375,4 +510,10 @@ def work(shard: Any) -> Result:
 
 
 def replay(case: Any) -> List[Violation]:
+    if case.get("cpp"):
+        from verif.core import worker_tmp
+
+        result = Result()
+        explore_cpp_batch([case["pattern"]], result, worker_tmp() / "c18-cpp-replay")
+        return result.violations
     return check_pattern(case["pattern"], case.get("probe_len", 3))[0]
